@@ -40,6 +40,8 @@ CHECKS = {
             "Model-derived exhaustive case generation inside a stated grammar of return types (Option/Result/Vec/Poll/tuples x owned, non-Clone, &T, &str, &'static): every variant and element count up to the bound, single-use and repeat-use paths, three calls each, address stability of borrowed leaves."),
     "C14": ("exploration", "3.2, 6/C14", "MC_Assemble.tla (Leaves/FlatOK/PermInvariant/TypeChecks) by TLC; clause trees and inconsistent clause lists rendered as static tuples and run; builder chains type-checked by rustc against the type-state automaton",
             "Every flat arity 2..16, nested tuples and unit clauses to depth 2, mode conflicts (either order, any distance) and empty stubs at every position with the error Assemble predicts and raised inside Unimock::new; the must-not-compile chains (at_least on ordered, then after inexact, multi-use of non-Clone) located per function in one cargo check run."),
+    "C06": ("exploration", "3.6, 6/C06", "Matching.tla (Sem/Stmt vs generated-closure Macro, invariant MacroIsMatch, raw-splice sensitivity) by TLC; every input rendered as matching!(..) and as a plain Rust match, all argument tuples of the domain, unordered and ordered evaluation",
+            "Model-derived exhaustive case generation: for every input of the bounded pattern grammar and every argument tuple of the finite domain the macro's accept/reject (diagnostics off and on) must equal the model's, and rustc's own match must agree with the model (three-way). Found and led to the fix of the unparenthesised-guard defect."),
 }
 
 NOT_YET = {
